@@ -4,6 +4,13 @@ From Coq Require Import ZArith NArith List Bool Lia Arith ZifyBool ZifyN ZifyNat
 Import ListNotations.
 Require Import SR.Base.Res SR.Gen.JsonTypeParams SR.Spec.Anchor SR.Spec.Layout SR.Model.Layout SR.Spec.SchemaTruth
   SR.Model.Estruct SR.Model.JsonType SR.Model.SchemaDoc SR.Proofs.JsonTypeP.
+(* The definitions of this development that occur in theorem statements (Props/) live in Spec/SchemaDocWf.v (audit item G1).
+   The abbreviations keep the qualified names SchemaDocP.name of other files resolving; they are parsing-only aliases. *)
+Require Export SR.Spec.SchemaDocWf.
+Notation is_decimal_kw := SR.Spec.SchemaDocWf.is_decimal_kw (only parsing).
+Notation atom_keys := SR.Spec.SchemaDocWf.atom_keys (only parsing).
+Notation atom_keys_props := SR.Spec.SchemaDocWf.atom_keys_props (only parsing).
+Notation atom_keys_alts := SR.Spec.SchemaDocWf.atom_keys_alts (only parsing).
 Open Scope nat_scope.
 
 (* ================================================================== valid_schema, one member at a time *)
@@ -115,9 +122,6 @@ Proof.
   rewrite forallb_forall in T. apply T. exact H.
 Qed.
 
-(* the extended vocabulary: a simple type, or the vocabulary's decimal *)
-Definition is_decimal_kw (k : N * N * N) : bool := (fst (fst k) =? 4)%N.
-
 Lemma json_type_ext_table : forallb (fun k => type_ok k || is_decimal_kw k) (xt_out_numeric :: xt_out_text :: map snd xt_branches) = true.
 Proof. vm_compute. reflexivity. Qed.
 
@@ -128,22 +132,6 @@ Proof.
 Qed.
 
 (* ================================================================== the rendering of any tree *)
-
-(* the $anchor keys of the elementary sub-schemas *)
-Fixpoint atom_keys (s : js) : list key :=
-  match s with
-  | JAtom (Some k) _ => [k]
-  | JAtom None _ => []
-  | JArr _ _ its => atom_keys its
-  | JOdo _ _ its => atom_keys its
-  | JObj _ ps => atom_keys_props ps
-  | JOne _ alts => atom_keys_alts alts
-  | JRef _ => []
-  end
-with atom_keys_props (ps : props) : list key :=
-  match ps with PNil => [] | PCons _ s r => atom_keys s ++ atom_keys_props r end
-with atom_keys_alts (alts : jalts) : list key :=
-  match alts with ANil => [] | ACons s r => atom_keys s ++ atom_keys_alts r end.
 
 Section Render.
   Variables name_of title_of cobol_of : id -> list N.
